@@ -171,8 +171,12 @@ def per_worker_template(ctx: Ctx, rule: str) -> None:
     ctx.record(rule, "TABLE", ONE, "per worker: no node -> skip this worker only; more than one -> RuntimeError; exactly one -> registered", not problems and kinds == {"none", "many", "one"},
                {"paths": len(views), **({"path": problems[0][1].path.describe()} if problems else {})},
                "" if not problems and kinds == {"none", "many", "one"} else (problems[0][0] if problems else f"rows found: {sorted(kinds)}"))
-    sd = [ast.unparse(s) for s in fn.node.body if "setup_dict" in ast.unparse(s) and isinstance(s, (ast.Assign, ast.Expr))]
-    ok = sd == ["setup_dict = config['param_dict'].copy()", "setup_dict.update({'vms': vms, 'main_vm': selected_vms[0]})"]
+    from ..facts import dict_writes
+
+    sd = [ast.unparse(s.value) for s in fn.node.body if isinstance(s, ast.Assign) and ast.unparse(s.targets[0]) == "setup_dict"]
+    wr = {(ast.unparse(k) if k is not None else "*"): ast.unparse(v) for k, v, _ in dict_writes(fn.node, "setup_dict")}
+    ok = sd == ["config['param_dict'].copy()"] and wr == {"'vms'": "vms", "'main_vm'": "selected_vms[0]"}
+    sd = sd + sorted(f"{k}: {v}" for k, v in wr.items())
     vms = [s for s in fn.node.body if isinstance(s, ast.Assign) and ast.unparse(s.targets[0]) == "vms"]
     ok = ok and len(vms) == 1 and ast.unparse(vms[0].value) == "' '.join(selected_vms)"
     ctx.record(rule + "p", "PROV", ONE, "the one node per worker covers all selected vms (vms = the selected vms, main_vm = the first)", ok, {"setup_dict": sd},
@@ -206,6 +210,8 @@ REUSE = {
 
 
 def step_table(ctx: Ctx, rule: str) -> None:
+    from ..facts import dict_writes
+
     tree = ctx.repo.module(IS)
     alls = [s for s in tree.body if isinstance(s, ast.Assign) and ast.unparse(s.targets[0]) == "__all__"]
     if len(alls) != 1 or not isinstance(alls[0].value, ast.List):
@@ -222,7 +228,9 @@ def step_table(ctx: Ctx, rule: str) -> None:
         ops = [s for s in f.node.body if isinstance(s, ast.Assign) and ast.unparse(s.targets[0]) == "operation"]
         calls = [c for c in calls_in(f.node) if call_name(c) == "_parse_and_iterate_for_objects_and_workers"]
         src = ast.unparse(f.node)
-        ok = len(ops) == 1 and ast.unparse(ops[0].value) == f"'{op}'" and len(calls) == 1 and "'vm_action': operation" in src \
+        va = [ast.unparse(v) for k, v, _ in dict_writes(f.node, "setup_dict") if isinstance(k, ast.Constant) and k.value == "vm_action"]
+        va += [ast.unparse(v) for c in calls for a in c.args if isinstance(a, ast.Dict) for k, v in zip(a.keys, a.values) if isinstance(k, ast.Constant) and k.value == "vm_action"]
+        ok = len(ops) == 1 and ast.unparse(ops[0].value) == f"'{op}'" and len(calls) == 1 and va == ["operation"] \
             and ast.unparse(calls[0].args[-1]) == "'state ' + operation" and "with_cartesian_graph" in f.decorators
         if not ok:
             bad[name] = [ast.unparse(o.value) for o in ops]
@@ -341,7 +349,7 @@ def unset_default(ctx: Ctx, rule: str) -> None:
             want = norm.conj([norm.neg(expr_formula(v, i, f"{key} in setup_dict")), norm.neg(expr_formula(v, i, "op_mode in setup_dict"))])
             if not norm.implies(prem, want):
                 bad = v
-    stores = [s_ for s_ in ast.walk(fn.node) if isinstance(s_, ast.Assign) and ast.unparse(s_.targets[0]).startswith("setup_dict[")]
+    stores = [s_ for s_ in ast.walk(fn.node) if isinstance(s_, ast.Assign) and ast.unparse(s_.targets[0]).startswith("setup_dict[") and "mode" in ast.unparse(s_.targets[0].slice)]
     defs = {ast.unparse(s_.targets[0]): ast.unparse(s_.value) for s_ in ast.walk(fn.node) if isinstance(s_, ast.Assign) and isinstance(s_.targets[0], ast.Name)}
     ok = bad is None and n_sites >= 1 and len(stores) == 1 and defs.get("vm_op_mode") == "op_mode + '_' + vm.suffix" and defs.get("op_mode") == "'unset_mode'" \
         and defs.get("setup_dict") == "config['param_dict'].copy()"
